@@ -116,11 +116,13 @@ func genC20(t *rapid.T) C20Scn {
 	return s
 }
 
+const c20IssueRule = "certificate requests for 0-7 node IDs (byte lengths biased to 0-1, 1-20, 100-135, 200-300, ~1000; ASCII or mixed UTF-8 incl. 4-byte runes; duplicates), " +
+	"0-4 DNS names, 0-3 IPv4/IPv6 addresses, existing or new key, direct API or MakeReq/SignReq through PEM files, validity windows around/before/after now; " +
+	"oracle = round trip (request names, certificate names, validity, signature by the CA) + ReceptorVerifyFunc accepts each requested ID and refuses neighbouring IDs; " +
+	"non-trivial = an ID >= 113 bytes or non-ASCII, or >= 3 IDs with a duplicate; distinct by canonical JSON"
+
 func TestC20Issue(t *testing.T) {
-	st := vx.NewStats("C20", "issue", "certificate requests for 0-7 node IDs (byte lengths biased to 0-1, 1-20, 100-135, 200-300, ~1000; ASCII or mixed UTF-8 incl. 4-byte runes; duplicates), "+
-		"0-4 DNS names, 0-3 IPv4/IPv6 addresses, existing or new key, direct API or MakeReq/SignReq through PEM files, validity windows around/before/after now; "+
-		"oracle = round trip (request names, certificate names, validity, signature by the CA) + ReceptorVerifyFunc accepts each requested ID and refuses neighbouring IDs; "+
-		"non-trivial = an ID >= 113 bytes or non-ASCII, or >= 3 IDs with a duplicate; distinct by canonical JSON")
+	st := vx.NewStats("C20", "issue", c20IssueRule)
 	defer st.Flush()
 	r := &vx.Runner{Name: "C20.issue", InProc: true}
 	rapid.Check(t, func(t *rapid.T) {
@@ -178,21 +180,28 @@ func genDerItem() *rapid.Generator[DerItem] {
 
 func validUTF8(s string) bool { return strings.ToValidUTF8(s, "") == s }
 
+const c20DerRule = "subjectAltName extensions built from a DER grammar (dNSName, iPAddress, registeredID, otherName with the receptor OID / another / a prefix / an extension of it, " +
+	"inner value UTF8/Printable/IA5/INTEGER/OCTET STRING/NULL/SEQUENCE, wrong classes, primitive flags, other explicit tag numbers, non-minimal lengths, trailing bytes) and 0-4 byte mutations of them; " +
+	"oracle: unmutated = by-construction classification of each item (must be returned / must not contribute / lenient); mutated = strict independent DER reader, compared only when it accepts the bytes; " +
+	"non-trivial = >= 2 items with a well-formed receptor name (unmutated) or a mutated extension the strict reader accepts with >= 1 name; distinct by canonical JSON"
+
 func TestC20Der(t *testing.T) {
-	st := vx.NewStats("C20", "der", "subjectAltName extensions built from a DER grammar (dNSName, iPAddress, registeredID, otherName with the receptor OID / another / a prefix / an extension of it, "+
-		"inner value UTF8/Printable/IA5/INTEGER/OCTET STRING/NULL/SEQUENCE, wrong classes, primitive flags, other explicit tag numbers, non-minimal lengths, trailing bytes) and 0-4 byte mutations of them; "+
-		"oracle: unmutated = by-construction classification of each item (must be returned / must not contribute / lenient); mutated = strict independent DER reader, compared only when it accepts the bytes; "+
-		"non-trivial = >= 2 items with a well-formed receptor name (unmutated) or a mutated extension the strict reader accepts with >= 1 name; distinct by canonical JSON")
+	st := vx.NewStats("C20", "der", c20DerRule)
 	defer st.Flush()
 	r := &vx.Runner{Name: "C20.der", InProc: true}
 	rapid.Check(t, func(t *rapid.T) {
-		s := C20Der{Items: rapid.SliceOfN(genDerItem(), 0, 6).Draw(t, "items")}
-		if rapid.IntRange(0, 2).Draw(t, "mutate") == 0 {
-			n := rapid.IntRange(1, 4).Draw(t, "nmut")
-			for i := 0; i < n; i++ {
-				s.Muts = append(s.Muts, DerMut{Pos: rapid.IntRange(0, 4000).Draw(t, "pos"), Op: rapid.IntRange(0, 4).Draw(t, "op"), B: rapid.Byte().Draw(t, "b")})
-			}
-		}
+		s := genC20Der(t)
 		st.Judge(t, s, r.Run(s))
 	})
+}
+
+func genC20Der(t *rapid.T) C20Der {
+	s := C20Der{Items: rapid.SliceOfN(genDerItem(), 0, 6).Draw(t, "items")}
+	if rapid.IntRange(0, 2).Draw(t, "mutate") == 0 {
+		n := rapid.IntRange(1, 4).Draw(t, "nmut")
+		for i := 0; i < n; i++ {
+			s.Muts = append(s.Muts, DerMut{Pos: rapid.IntRange(0, 4000).Draw(t, "pos"), Op: rapid.IntRange(0, 4).Draw(t, "op"), B: rapid.Byte().Draw(t, "b")})
+		}
+	}
+	return s
 }
